@@ -704,7 +704,13 @@ func nativeReplay(repo, verif string, replayOverlay map[string]string, cfg *chec
 		if pkgs[pp] == nil {
 			pkgs[pp] = &pkgInfo{path: pp}
 		}
-		pkgs[pp].funcs = append(pkgs[pp].funcs, fn)
+		dup := false
+		for _, f := range pkgs[pp].funcs {
+			dup = dup || f == fn
+		}
+		if !dup {
+			pkgs[pp].funcs = append(pkgs[pp].funcs, fn)
+		}
 	}
 	var cases []replayCase
 	for i, v := range a.violations {
